@@ -58,7 +58,10 @@ def gen_cases(tier, seed):
             probes = []
         meta = {"cred": cred}
         if cred == "badpwd":
-            ops.append(C(1, "auth nun wrong"))
+            # wrong in every way a comparison can get wrong: another word, a prefix, an extension, the empty word, another case,
+            # and the same for the user name
+            ops.append(C(1, rng.choice(["auth nun wrong", "auth nun pw", "auth nun p", "auth nun pwdx", "auth nun pwd pwd", "auth nun ", "auth nun PWD",
+                                        "auth nu pwd", "auth nunx pwd", "auth  pwd", "auth pwd nun", "auth nun"])))
         elif cred == "dbtoken":
             ops.append(C(1, "use-db d1 tok1"))
         elif cred == "badtoken":
@@ -124,6 +127,14 @@ def oracle(case, io, mo):
                 perms.append((pp[0], pp[1].split(",") if len(pp) > 1 else []))
         if sid == 0 and line == "remove $$permission_$bob" and reply == "Ok":
             perms = None
+        if sid == 1 and w[0] == "auth":
+            # the session is an administrator's afterwards exactly when it presented the administrator's name and password
+            m1 = SESS1.search(dump)
+            was = SESS1.search(prev_dump or "")
+            was_auth = bool(was and was.group(1) == "A")
+            now_auth = bool(m1 and m1.group(1) == "A")
+            if now_auth and not was_auth and line != "auth %s %s" % (USER, PWD):
+                fails.append(("auth-bypass", "step %d: '%s' made the session an administrator's" % (i, line)))
         if sid != 1:
             prev_dump = dump; continue
         m = SESS1.search(prev_dump or "")
